@@ -112,7 +112,7 @@ Section XmlDeser.
                (match txt with Some _ => Raise EAttributeError [] | None => Raise ETypeError [] end)
                (Ret tt)
     | _ =>
-        let rs := match k with LBytes => xml_byte_array_from_element_raises | _ => xml_base_from_element_raises end in
+        let rs := match k with LBytes _ => xml_byte_array_from_element_raises | _ => xml_base_from_element_raises end in
         if soft && negb (vstring k nillable txt) then raise_nth 0 rs
         else
           let! v := match txt with
@@ -171,7 +171,7 @@ Section XmlDeser.
   Definition kind_same (k' k : lkind) : bool :=
     match k', k with
     | LInt _, LInt _ | LText, LText | LBool, LBool | LDateTime, LDateTime | LDate, LDate
-    | LTime, LTime | LDur, LDur | LBytes, LBytes => true
+    | LTime, LTime | LDur, LDur | LBytes _, LBytes _ => true
     | LEnum a, LEnum b => (fix eq (x y : list text) : bool :=
                              match x, y with
                              | [], [] => true
